@@ -36,7 +36,7 @@ def run(ctx):
     kept, codes = sc.run_property(ctx, ID, FAIL, MISMATCH, extra=extra)
     repeats = clock_pairs = snapshots = 0
     for (case, out), code in zip(kept, codes):
-        if code & sc.BITS['illformed']:
+        if case.get('offgrid') or code & sc.BITS['illformed']:
             continue
         if 'pure' in out:
             snapshots += 1
